@@ -34,7 +34,9 @@ type check struct {
 	sig         string // what this check is, stable (impl + corruption class)
 	// norm canonicalises the model's answer before the comparison (legacy proof nodes carry plain
 	// felts: the child type tags of the model's node rendering are dropped)
-	norm   func(string) string
+	norm func(string) string
+	// fuelOK: the real call was not made because it is predicted not to return; the model must say so too
+	fuelOK bool
 	replay func() any
 }
 
@@ -46,7 +48,7 @@ type ctx struct {
 	f   lib.Flags
 	res *lib.Result
 	// variant of the verifiers the harness is looking at (model Cfg):
-	// "<trustCache><earlyValue><zeroRoot><walkCollapsed>"
+	// "<trustCache><earlyValue><zeroRoot><walkCollapsed><checkKey>"
 	cfg2 string // trie2.VerifyProof
 	cfgL string // trie.VerifyProof (only zeroRoot matters)
 	// number of calls made although they are predicted not to return
@@ -93,7 +95,10 @@ func (c *ctx) judge(ch *check, model string) {
 	if strings.HasPrefix(model, "bad-op") {
 		res.Fatalf("the driver answers bad-op to a %s request: %.200s", ch.sig, ch.line)
 	}
-	if model == "err:fuel" && ch.impl != "hang" {
+	if ch.fuelOK && model != "err:fuel" {
+		res.Mismatch(lib.Mismatch{Sig: "predicted-hang-but-model-returns:" + ch.sig, Input: ch.replay(), Model: model, Impl: "not run"})
+	}
+	if model == "err:fuel" && ch.impl != "hang" && !ch.fuelOK {
 		// the model's iteration bound stands for "does not return": only legitimate next to a real hang
 		res.Mismatch(lib.Mismatch{Sig: "model-out-of-fuel:" + ch.sig, Input: ch.replay(), Model: model, Impl: ch.impl})
 	}
@@ -185,7 +190,8 @@ func main() {
 	res.SetExtra("verifier_variant", map[string]any{
 		"trie2_trusts_cached_hash": c.cfg2[0] == '1', "trie2_value_node_ends_walk_early": c.cfg2[1] == '1',
 		"trie2_zero_root_means_absent": c.cfg2[2] == '1', "legacy_zero_root_means_absent": c.cfgL[2] == '1',
-		"trie2_walks_the_collapsed_copy": c.cfg2[3] == '1'})
+		"trie2_walks_the_collapsed_copy": c.cfg2[3] == '1', "trie2_refuses_keys_above_2_251": c.cfg2[4] == '1',
+		"legacy_refuses_keys_above_2_251": c.cfgL[4] == '1'})
 
 	if f.Replay != "" {
 		c.replay(f.Replay)
@@ -302,7 +308,7 @@ func (c *ctx) replay(path string) {
 	defer drv.Close()
 	root := hexFelt(vr.Root)
 	chk := check{
-		line:   c.modelLine(vr.Verifier, vr.Root, vr.Key, vr.Proof, vr.Hash),
+		line:   c.modelLine(vr.Verifier, vr.Root, map[bool]string{true: "+", false: ""}[vr.KeyPlus]+vr.Key, vr.Proof, vr.Hash),
 		truth:  vr.Truth,
 		honest: vr.Honest, independent: vr.Honest && vr.Verifier == "legacy",
 		sig:    vr.Check,
@@ -335,13 +341,13 @@ func probeCfg(res *lib.Result) (cfg2, cfgL string) {
 	bt, err := buildTrie(spec)
 	if err != nil {
 		res.Fatalf("probe: %v", err)
-		return "1100", "0000"
+		return "11000", "00000"
 	}
 	key := spec.KVs[0].K
 	p, err := bt.prove(key)
 	if err != nil || len(p) < 3 {
 		res.Fatalf("probe: prove: %v (%d nodes)", err, len(p))
-		return "1100", "0000"
+		return "11000", "00000"
 	}
 	hf := hashFnOf("ped")
 	// (1) change the value in the last node, keep its cache
@@ -409,7 +415,22 @@ func probeCfg(res *lib.Result) (cfg2, cfgL string) {
 		ans := realVerifyFelt("trie2", hf, &bt4.root, ptrFelt(bitsToFelt(spec4.KVs[1].K)), q, []time.Duration{20 * time.Second, 60 * time.Second})
 		collapsed = ans == "ok 3"
 	}
-	return b(trust) + b(early) + b(z2) + b(collapsed), "00" + b(zL) + "0"
+	// (5) the felt key + 2^251 with the honest proof of the key
+	k5 := bitsToFelt(key)
+	k5.Add(&k5, &twoPow251)
+	normal := []time.Duration{verifyDeadline, 2 * verifyDeadline}
+	ck2 := !strings.HasPrefix(realVerifyFelt("trie2", hf, &bt.root, &k5, p, normal), "ok ")
+	ckL := true
+	specL := *spec
+	specL.Impl = "legacy"
+	if btL, err := buildTrie(&specL); err != nil {
+		res.Fatalf("probe: %v", err)
+	} else if pL, err := btL.prove(key); err != nil {
+		res.Fatalf("probe: %v", err)
+	} else {
+		ckL = !strings.HasPrefix(realVerifyFelt("legacy", hf, &btL.root, &k5, pL, normal), "ok ")
+	}
+	return b(trust) + b(early) + b(z2) + b(collapsed) + b(ck2), "00" + b(zL) + "0" + b(ckL)
 }
 
 func ptrFelt(f felt.Felt) *felt.Felt { return &f }
